@@ -208,6 +208,23 @@ Theorem error_roundtrip_fresh pmt errmt cenc :
 Proof. exact (error_roundtrip pmt errmt cenc). Qed.
 Print Assumptions error_roundtrip_fresh.
 
+(* the muxer's own 404 response: for every Accept value an encoder is chosen, the client reads
+   status 404 and a Content-Type that selects the decoder of the format the body is in; the
+   body is what that encoder produced and nothing else - when the text encoder is chosen
+   (it refuses the error struct) nothing is written, no other format is substituted *)
+Theorem not_found_announces_its_format pmt errmt cenc :
+  parser_stable pmt -> parser_fixes_supported pmt ->
+  forall accept,
+    (exists k b w', mux_not_found pmt errmt cenc accept = (Some k, b, w')) /\
+    forall k b w', mux_not_found pmt errmt cenc accept = (Some k, b, w') ->
+      exists hdr, sent w' = Some (404, hdr) /\ response_decoder pmt hdr = k
+                  /\ b = encode cenc k (VStruct 0) /\ (k = KText -> b = None).
+Proof.
+  intros Hs Hf accept. split; [exact (not_found_total pmt errmt cenc accept)|].
+  exact (not_found_roundtrip pmt errmt cenc Hs Hf accept).
+Qed.
+Print Assumptions not_found_announces_its_format.
+
 (* the order matters: with the status written first the negotiated Content-Type never
    reaches the client, which reads what the writer sniffs from the body; an XML error body
    announced as text/plain is not recovered *)
